@@ -536,7 +536,11 @@ def b_dispatch(tier):
     import numpy as np
     foreign = [(1, "constant"), (1.5, "constant"), (1 + 2j, "constant"), (True, "constant"), (np.float64(2), "constant"),
                ([1], "list"), ((1,), "tuple"), (np.array([1, 2]), "array"), ("s", None), (None, None), ({1}, None), ({}, None),
-               (object(), None)]
+               (object(), None),
+               # numpy scalars: the numeric ones are constants, the others (text, bytes, dates, records) are not numbers
+               (np.int32(3), "constant"), (np.complex64(1 + 2j), "constant"), (np.bool_(True), "constant"), (np.uint8(3), "constant"),
+               (np.str_("s"), None), (np.bytes_(b"s"), None), (np.datetime64("2020-01-01"), None), (np.void(b"ab"), None), (b"s", None), (bytearray(b"s"), None),
+               (range(3), None), (frozenset({1}), None), (slice(1, 2), None), (Ellipsis, None), (NotImplemented, None)]
     for obj, want in foreign:
         for a, kw in (((), {}), ((1,), {"k": 2})):
             for entry in ("__call__", "rec_fallback", "map_foreign"):
